@@ -1,6 +1,6 @@
 (* C16 — property theorems only: statement, `exact <lemma>`, Print Assumptions. *)
 From GL Require Import Common.Bytes Text.Quote Text.StrLit Text.NumRead Text.NumText Text.Date
-  Text.QuoteFacts Text.StrLitFacts Text.NumFacts Text.NumLexFacts Text.NumTextFacts Text.DateFacts.
+  Text.QuoteFacts Text.StrLitFacts Text.NumFacts Text.NumLexFacts Text.NumTextFacts Text.DateFacts Text.RoundFacts Text.CalFacts Text.Legacy Text.LegacyFacts.
 
 (* ---- %q ---- *)
 (* what string.format('%q', s) must produce reads back through the lexer as s, for every byte string *)
@@ -64,6 +64,18 @@ Theorem tostring_tonumber : forall (rnd : Z -> Z -> fval) (fmt : fval -> bytes),
 Proof. exact tostring_tonumber_lemma. Qed.
 Print Assumptions tostring_tonumber.
 
+(* the concrete correctly-rounding reader the case evaluator compares with strconv.ParseFloat meets the
+   first hypothesis, so for integral values the round trip needs no oracle *)
+Theorem round_dec_int_exact : forall x z, is_canon x = true -> in_binary64 x ->
+  int_of_fval x = Some z -> round_dec z 0 = x.
+Proof. exact round_dec_int_exact_lemma. Qed.
+Print Assumptions round_dec_int_exact.
+
+Theorem tostring_tonumber_integral : forall fmt x, is_canon x = true -> in_binary64 x -> is_integer x = true ->
+  tonumber_f round_dec (lnumber_string fmt x) None = Some x.
+Proof. exact tostring_tonumber_integral_lemma. Qed.
+Print Assumptions tostring_tonumber_integral.
+
 (* ---- numeral readers ---- *)
 (* the acceptor shared by parseNumber and the lexer accepts exactly the decimal numerals of the
    grammar, with the value the spelling denotes; same for 0x numerals *)
@@ -99,6 +111,27 @@ Theorem readers_same_value : forall s m e, Unsigned s m e ->
 Proof. exact readers_same_value_lemma. Qed.
 Print Assumptions readers_same_value.
 
+(* the readers as they were before the fix: commits (record; Text/Legacy.v is tied to no code): the
+   witnesses of DESIGN 9.1 C16-1..3 on which readers_agree failed *)
+Theorem legacy_coerce_refuted :
+  legacy_coerce_int [48;48;49;48] = Some 8 /\ parse_exact [48;48;49;48] = Some (10, 0) /\
+  legacy_coerce_int [48;98;49;49] = Some 3 /\ parse_exact [48;98;49;49] = None /\
+  legacy_coerce_int [48;111;49;55] = Some 15 /\ parse_exact [48;111;49;55] = None.
+Proof. exact legacy_coerce_refuted_lemma. Qed.
+Print Assumptions legacy_coerce_refuted.
+
+Theorem legacy_tonumber_refuted :
+  legacy_tonumber_nodot [49;101;50] = None /\ parse_exact [49;101;50] = Some (1, 2).
+Proof. exact legacy_tonumber_refuted_lemma. Qed.
+Print Assumptions legacy_tonumber_refuted.
+
+Theorem legacy_lexer_refuted :
+  legacy_lex_digits [48;48;49;50] = Some 10 /\ lex_numeral [48;48;49;50] = LNVal 12 0 /\
+  legacy_lex_digits [48;48;49;48] = Some 8 /\ lex_numeral [48;48;49;48] = LNVal 10 0 /\
+  legacy_lex_digits [48;48;57;57] = None.
+Proof. exact legacy_lexer_refuted_lemma. Qed.
+Print Assumptions legacy_lexer_refuted.
+
 (* ---- dates ---- *)
 (* in a zone where time.Date inverts the broken-down time, os.time(os.date('*t', t)) = t *)
 Theorem time_date_roundtrip : forall (to_civil : Z -> civil) (of_civil : Z -> Z -> Z -> Z -> Z -> Z -> Z),
@@ -107,6 +140,17 @@ Theorem time_date_roundtrip : forall (to_civil : Z -> civil) (of_civil : Z -> Z 
   forall t, os_time of_civil (os_date_t to_civil t) = t.
 Proof. exact time_date_roundtrip_lemma. Qed.
 Print Assumptions time_date_roundtrip.
+
+(* the proleptic Gregorian calendar in UTC (the one the case evaluator compares with Go's time package)
+   meets that hypothesis for every whole second, so there the round trip holds outright *)
+Theorem civil_inverse : forall t, let c := civil_of_unix t in
+  unix_of_civil (c_year c) (c_month c) (c_day c) (c_hour c) (c_min c) (c_sec c) = t.
+Proof. exact civil_inverse_lemma. Qed.
+Print Assumptions civil_inverse.
+
+Theorem time_date_roundtrip_gregorian : forall t, os_time unix_of_civil (os_date_t civil_of_unix t) = t.
+Proof. exact time_date_roundtrip_gregorian_lemma. Qed.
+Print Assumptions time_date_roundtrip_gregorian.
 
 (* every format string is rendered piece by piece: %% a percent sign, %<c> the conversion c, any other
    byte itself *)
